@@ -59,7 +59,10 @@ def check(rep):
         return
     evals += u["n"] * 6
     # --- box types
-    differ("boxtype_of_code", sorted(u["boxtype_known"]), sorted([[c, n] for n, c in iso["boxtypes"]]),
+    # the standard's assignments must all be there; further variants (a box type added to the enumeration) are judged by losslessness only
+    iso_bt = sorted([[c, n] for n, c in iso["boxtypes"]])
+    iso_names = {n for n, c in iso["boxtypes"]}
+    differ("boxtype_of_code", sorted(e for e in u["boxtype_known"] if e in iso_bt or e[1] in iso_names), iso_bt,
            "BoxType::from(u32) names a variant for exactly the standard's codes", fails)
     differ("boxtype_of_code_vs_source_table", sorted(u["boxtype_known"]), sorted([[c, n] for n, c in gen["boxtype_table"]]),
            "compiled BoxType::from(u32) vs the table regenerated from the source", ties)
